@@ -48,11 +48,19 @@ Arguments Ok {A} a. Arguments Err {A}. Arguments OutOfFuel {A}. Arguments Overfl
 Definition bind {A B} (r : res A) (f : A -> res B) : res B :=
   match r with Ok a => f a | Err => Err | OutOfFuel => OutOfFuel | Overflow => Overflow end.
 
+(* ---- two versions of the code --------------------------------------------------------------------------------
+   Cur : /repo as it is now.
+   Old : the code before the repairs cb07d24 (cgio_compute_data_size looked at upper-case letters only), 3a1c414
+         (ADF_Read_All_Data accepted a simple memory type for a node of compound type), 39f8525 (cgnsdiff compared
+         the labels of the two root nodes) and e3072bd (cgnsdiff built paths in char[1024]).  Kept so that the
+         ..._old_refuted theorems document what the repairs changed; every positive theorem is about Cur. *)
+Inductive ver := Old | Cur.
+
 (* ---- cgio_compute_data_size / compute_data_size (cgns_io.c:160-168, 680-711) ------------------------------ *)
 (* switch on data_type[0]: 'B','C' -> return CG_ERROR (= 1); 'I','U' -> [1]=='4' ? sizeof(int) : [1]=='8' ?
    sizeof(cglong_t); 'R' -> 4 / 8; 'X' -> 8 / 16; everything else (break / no case) -> CG_OK (= 0). *)
 Definition second (dt : bytes) : Z := match dt with _ :: c :: _ => c | _ => 0 end.
-Definition type_size (dt : bytes) : Z :=
+Definition type_size_upper (dt : bytes) : Z :=
   match dt with
   | 66 :: _ => 1                                              (* 'B' *)
   | 67 :: _ => 1                                              (* 'C' *)
@@ -65,7 +73,12 @@ Definition type_size (dt : bytes) : Z :=
 (* if (ndims > 0) { count = dims[0]; for (i = 1; i < ndims; i++) count *= dims[i]; } else count = 0; *)
 Definition elem_count (dims : list Z) : Z :=
   match dims with [] => 0 | d :: rest => fold_left Z.mul rest d end.
-Definition compute_data_size (dt : bytes) (dims : list Z) : Z := type_size dt * elem_count dims.
+Definition upper (c : Z) : Z := if (97 <=? c) && (c <=? 122) then c - 32 else c.
+(* since cb07d24: switch (toupper((unsigned char)*data_type)) -- the first character only *)
+Definition norm_type (dt : bytes) : bytes := match dt with c :: r => upper c :: r | [] => [] end.
+Definition type_size (v : ver) (dt : bytes) : Z :=
+  match v with Cur => type_size_upper (norm_type dt) | Old => type_size_upper dt end.
+Definition compute_data_size (v : ver) (dt : bytes) (dims : list Z) : Z := type_size v dt * elem_count dims.
 
 (* ---- the output database ---------------------------------------------------------------------------------- *)
 Definition fresh (nm : bytes) : node := Node nm [] s_MT [] [] [].
@@ -95,8 +108,6 @@ Definition with_new (out : node) (f : node -> res node) : res node :=
   | LinkNode _ _ _ => Err
   end.
 
-Definition upper (c : Z) : Z := if (97 <=? c) && (c <=? 122) then c - 32 else c.
-
 (* ADF_Put_Dimension_Information / ADFH_Put_Dimension_Information as cgio_copy_node calls them.
    ADF keeps the type string as given; ADFH keeps the first two characters in upper case, accepts only the ten
    simple types (and MT), and refuses ndims = 0 for a type other than MT. *)
@@ -125,15 +136,20 @@ Definition write_all (out : node) (data : bytes) : res node :=
    label, data_type, ndims read from the input; if (ndims > 0) { dims; data_size = compute_data_size(...);
    if (data_size) { data = malloc(data_size); Read_All_Data(id, data_type, data) } }
    then Set_Label; Put_Dimension_Information; if (data_size) Write_All_Data.
+   ADF_Get_Data_Type / ADFH_Get_Data_Type hand out the first TWO characters of the type string
+   (ADF_CGIO_DATA_TYPE_LENGTH); that is the string everything below works with.
    Read_All_Data transfers ALL of the node's data: more than data_size bytes is a write past the malloc'd
-   buffer; a node that has dimensions but no data makes the read (ADF) fail. *)
-Definition copy_node (dst_hdf5 : bool) (lbl dt : bytes) (dims : list Z) (data : bytes) (out : node) : res node :=
-  let data_size := if is_nil dims then 0 else compute_data_size dt dims in
+   buffer; a node that has dimensions but no data makes the read (ADF) fail.  Since 3a1c414 the read refuses
+   (INVALID_DATA_TYPE) a two-character memory type for a node whose type string goes on (a compound type). *)
+Definition copy_node (v : ver) (dst_hdf5 : bool) (lbl dt : bytes) (dims : list Z) (data : bytes) (out : node) : res node :=
+  let dt2 := firstn 2 dt in
+  let data_size := if is_nil dims then 0 else compute_data_size v dt2 dims in
   bind (if data_size =? 0 then Ok tt
+        else if (match v with Cur => 2 <? lenZ dt | Old => false end) then Err
         else if data_size <? lenZ data then Overflow
         else if lenZ data <? data_size then Err else Ok tt) (fun _ =>
   bind (set_label out lbl) (fun o1 =>
-  bind (put_dims dst_hdf5 o1 dt dims) (fun o2 =>
+  bind (put_dims dst_hdf5 o1 dt2 dims) (fun o2 =>
   if data_size =? 0 then Ok o2 else write_all o2 data))).
 
 (* name_len && (file_len == 0 || follow_links == 0)    (cgns_io.c:198) *)
@@ -145,6 +161,7 @@ Definition keep_link (file path : bytes) (follow : bool) : bool :=
    The recursion on the children of the source is structural; fuel is spent only when an external link is
    followed into another tree. *)
 Section Recurse.
+Variable v : ver.
 Variable dst_hdf5 : bool.
 Variable resolve : bytes -> bytes -> option node.
 
@@ -180,7 +197,7 @@ Fixpoint recurse_nodes (fuel : nat) (follow : bool) : node -> node -> Z -> res n
     | LinkNode _ _ _ => Err
     | Node _ lbl dt dims data kids =>
         (* if (depth && cgio_copy_node(input, InputID, output, OutputID)) return CG_ERROR; *)
-        bind (if depth =? 0 then Ok out else copy_node dst_hdf5 lbl dt dims data out) (fun out1 =>
+        bind (if depth =? 0 then Ok out else copy_node v dst_hdf5 lbl dt dims data out) (fun out1 =>
         kids_loop go
           (fun file path c d =>
              match fuel with
@@ -259,11 +276,11 @@ Definition resolve_in (w : world) (cur : bytes) (file path : bytes) : option nod
 
 (* ---- the entry points as compositions ---------------------------------------------------------------------------- *)
 (* cgio_copy_file between two open files of a world; the output file has just been created *)
-Definition do_copy_file (fuel : nat) (w : world) (src dst : bytes) (dst_hdf5 follow : bool) : res world :=
+Definition do_copy_file (v : ver) (fuel : nat) (w : world) (src dst : bytes) (dst_hdf5 follow : bool) : res world :=
   match get_file w src with
   | None => Err
   | Some r =>
-      bind (copy_file dst_hdf5 (resolve_in w src) fuel follow r (new_root dst_hdf5))
+      bind (copy_file v dst_hdf5 (resolve_in w src) fuel follow r (new_root dst_hdf5))
            (fun r' => Ok (set_file w dst r'))
   end.
 (* cg_save_as(fn, filename, file_type, follow_links): cgio_open_file(filename, WRITE, file_type) ; cgio_copy_file ;
@@ -273,8 +290,8 @@ Definition cg_save_as := do_copy_file.
 Definition cgnsconvert := do_copy_file.
 (* rewrite_file(cginp, filename): copy into "<filename>.temp" of the SAME type with follow_links = 0, close both,
    unlink(filename), rename(temp, filename)  -- cgio_compress_file, compress-on-close of cg_close, cgnscompress *)
-Definition rewrite_file (fuel : nat) (w : world) (src filename : bytes) (src_hdf5 : bool) : res world :=
-  do_copy_file fuel w src filename src_hdf5 false.
+Definition rewrite_file (v : ver) (fuel : nat) (w : world) (src filename : bytes) (src_hdf5 : bool) : res world :=
+  do_copy_file v fuel w src filename src_hdf5 false.
 Definition cgio_compress_file := rewrite_file.
 
 (* ---- fully resolved view (what a reader that follows every link sees) ---------------------------------------------- *)
@@ -378,6 +395,7 @@ Definition path_fits (name p : bytes) : bool := lenZ name + 1 + lenZ p + 1 <=? 1
 
 (* the matching loop, cgnsdiff.c:352-376; [rec p q] compares child p of the first with child q of the second node *)
 Section DiffLoop.
+Variable chk : bool.            (* paths are built in char[1024] (before e3072bd) *)
 Variable rec : bytes -> bytes -> list dline.
 Variables (c2 : list bytes) (nm1 nm2 : bytes).
 Fixpoint diff_loop (l1 : list bytes) (n2_ : Z) {struct l1} : list dline :=
@@ -391,12 +409,13 @@ Fixpoint diff_loop (l1 : list bytes) (n2_ : Z) {struct l1} : list dline :=
         let n2' := Z.max n2_ nret in
         let q := nth (Z.to_nat n2') c2 [] in
         map (fun q => DRight (slash nm2 q)) gap ++
-        (if path_fits nm1 p && path_fits nm2 q then rec p q ++ diff_loop rest (n2' + 1)
+        (if negb chk || (path_fits nm1 p && path_fits nm2 q) then rec p q ++ diff_loop rest (n2' + 1)
          else [DPathOverflow])
   end.
 End DiffLoop.
 
 Section Diff.
+Variable v : ver.
 Variable node_data : bool.      (* -d *)
 Variable follow : bool.         (* -f *)
 Variable w1 w2 : world.
@@ -408,7 +427,9 @@ Fixpoint compare_nodes (fuel : nat) (name1 : bytes) (cf1 : bytes) (n1 : node)
   | S f =>
       match chase link_fuel w1 cf1 n1, chase link_fuel w2 cf2 n2 with
       | Some (f1, r1), Some (f2, r2) =>
-          let out := compare_data node_data name1 name2 r1 r2 in
+          (* since 39f8525: if (strcmp (name1, "/") || strcmp (name2, "/")) compare_data (...) *)
+          let out := if (match v with Cur => true | Old => false end) && bytes_eqb name1 [47] && bytes_eqb name2 [47]
+                     then [] else compare_data node_data name1 name2 r1 r2 in
           if negb follow && (is_link n1 || is_link n2) then out
           else
             let c1 := sort_names (map node_name (kids_of r1)) in
@@ -419,7 +440,7 @@ Fixpoint compare_nodes (fuel : nat) (name1 : bytes) (cf1 : bytes) (n1 : node)
             (if is_nil c1 then map (fun q => DRight (slash nm2 q)) c2
              else if is_nil c2 then map (fun p => DLeft (slash nm1 p)) c1
              else
-               diff_loop
+               diff_loop (match v with Old => true | Cur => false end)
                  (fun p q =>
                     match find_kid (kids_of r1) p, find_kid (kids_of r2) q with
                     | Some k1, Some k2 => compare_nodes f (slash nm1 p) f1 k1 (slash nm2 q) f2 k2
@@ -465,17 +486,28 @@ Definition std_size (dt : bytes) : Z :=
 Definition prodZ (l : list Z) : Z := fold_right Z.mul 1 l.
 (* a node as the documented API can leave it: MT without dimensions and data, or one of the ten types with
    positive dimension values and exactly the bytes of its elements (ADF also allows a typed node without
-   dimensions; the HDF5 back end cannot hold one) *)
-Definition node_ok (dst_hdf5 : bool) (dt : bytes) (dims : list Z) (data : bytes) : bool :=
+   dimensions; the HDF5 back end cannot hold one).  ADF keeps the type string as it was given, so a lower-case
+   first letter ("r8") is a legal ADF type; the HDF5 back end stores upper case only.  The old code sized only
+   upper-case names. *)
+Definition type_norm (v : ver) (dst_hdf5 : bool) (dt : bytes) : bytes :=
+  match v, dst_hdf5 with Cur, false => norm_type dt | _, _ => dt end.
+Definition node_ok (v : ver) (dst_hdf5 : bool) (dt : bytes) (dims : list Z) (data : bytes) : bool :=
   if bytes_eqb dt s_MT then is_nil dims && is_nil data
-  else std_type dt && forallb (Z.leb 1) dims &&
-       (if is_nil dims then is_nil data && negb dst_hdf5 else lenZ data =? std_size dt * prodZ dims).
-Fixpoint tree_ok (dst_hdf5 : bool) (n : node) : bool :=
+  else std_type (type_norm v dst_hdf5 dt) && forallb (Z.leb 1) dims &&
+       (if is_nil dims then is_nil data && negb dst_hdf5
+        else lenZ data =? std_size (type_norm v dst_hdf5 dt) * prodZ dims).
+Fixpoint tree_ok (v : ver) (dst_hdf5 : bool) (n : node) : bool :=
   match n with
-  | Node _ _ dt dims data ks => node_ok dst_hdf5 dt dims data && forallb (tree_ok dst_hdf5) ks
+  | Node _ _ dt dims data ks => node_ok v dst_hdf5 dt dims data && forallb (tree_ok v dst_hdf5) ks
   | LinkNode _ _ _ => true
   end.
-Definition kids_ok (dst_hdf5 : bool) (n : node) : bool := forallb (tree_ok dst_hdf5) (kids_of n).
+Definition kids_ok (v : ver) (dst_hdf5 : bool) (n : node) : bool := forallb (tree_ok v dst_hdf5) (kids_of n).
+(* names as every file has them: not empty *)
+Fixpoint names_nonempty (n : node) : bool :=
+  match n with
+  | Node _ _ _ _ _ ks => forallb (fun k => negb (is_nil (node_name k)) && names_nonempty k) ks
+  | LinkNode _ _ _ => true
+  end.
 
 Fixpoint link_free (n : node) : bool :=
   match n with Node _ _ _ _ _ ks => forallb link_free ks | LinkNode _ _ _ => false end.
